@@ -349,7 +349,8 @@ func VerifC10_KPriorSite() {
 	s1 := show(r1)
 	if r1.Type == lisp.LError {
 		if loc, ok := r1.Source(); ok {
-			vAssert(loc.File == "this-file", "the error is located in the source that was loaded, not where another runtime once made the same call: "+s1)
+			// (a nested load -- load-string, load-bytes -- names its own source, e.g. "load-string")
+			vAssert(loc.File != "prior-file", "the error is located in the source that was loaded, not where another runtime once made the same call: "+s1)
 		}
 		if st := r1.CallStack(); st != nil {
 			for _, f := range st.Frames {
